@@ -31,7 +31,8 @@ SPEC = {
     # invariant would have to hold ("touches no memory outside its heap, its spill area and what it pushed")
     "C09": dict(archs=["x86", "a64", "rv"], classes={"inv", "oob", "undef", "fault", "align"}, gen=["default", "bigobj", "spill", "rv"]),
     "C10": dict(archs=["x86", "a64"], classes={"inv", "footprint"}, gen=["default"]),
-    "C13": dict(archs=["x86", "a64"], classes={"cc", "align", "undef"}, gen=["default", "spill", "live"]),
+    # "sem": "the result is in the return register" and the entry arguments reach the parameters (0..5 / 0..7)
+    "C13": dict(archs=["x86", "a64"], classes={"cc", "align", "undef", "sem"}, gen=["default", "spill", "live"]),
     "C14": dict(archs=["x86", "a64", "rv"], classes={"wf", "parse", "asm"}, gen=["default", "spill", "bigobj", "rv"]),
 }
 
@@ -163,7 +164,7 @@ def run(prop):
         funs = sorted(os.path.join(bdir, f) for f in os.listdir(bdir) if f.endswith(".sc")) + funs
         import stagecheck as _sc
 
-        funs = _sc.shape_programs(chk, only=("dup", "rvd", "objp", "nest")) + funs
+        funs = _sc.shape_programs(chk, only=("dup", "rvd", "objp", "nest", "argn", "bal", "rvc")) + funs
         # regression corpus (minimised past failures): always, never sampled away
         funs = pipeline.corpus_programs("regress") + [f for f in funs if "/corpus/regress/" not in f]
         for f in funs:
@@ -172,7 +173,7 @@ def run(prop):
                 import stagecheck
 
                 np_ = stagecheck.main_params(st)
-                if np_ is None or np_ > 5:
+                if np_ is None or np_ > (7 if "a64" in spec["archs"] else 5):
                     continue
                 p = R.write("fun_%s.sexp" % os.path.basename(f), st["S4"][1])
                 if "/corpus/regress/" in f:
@@ -232,8 +233,8 @@ def run(prop):
                             mod_text = mm.split("\n", 1)[1] if mm and mm.startswith("OK ") and "\n" in mm else mm
                         else:
                             mod_text = mm.split("\n---\n", 1)[1] if mm and mm.startswith("OK ") and "\n---\n" in mm else mm
-                        a = common.canon_labels(impl_text, tnames)
-                        b = common.canon_labels(mod_text or "", tnames)
+                        a = common.strip_comments(common.canon_labels(impl_text, tnames))
+                        b = common.strip_comments(common.canon_labels(mod_text or "", tnames))
                         same = a == b
                     else:
                         same = bool(mm) and mm.startswith("PANIC")
